@@ -80,7 +80,10 @@ DiedDiv(v) ==
   IF v.at > Len(v.msgs) THEN {"death-at-probe"}
   ELSE IF \E x \in Blind(v.msgs, v.at - 1, {InitSt}) : \E o \in Dispatch(x, v.msgs[v.at]) : o.crash THEN {} ELSE {"death-not-predicted"}
 
-Diverge(v) == IF v.died THEN DiedDiv(v) ELSE Track(v, 1, {InitSt})
+\* sequences of the store-fault family (one adapter call of one message fails) are judged by the clauses only: Session.tla does not
+\* model store failures, and every clause is a "never" (a fault may make a request fail, it may never make it grant more)
+Faulted(v) == "fam" \in DOMAIN v /\ v.fam = "fault"
+Diverge(v) == IF Faulted(v) THEN {} ELSE IF v.died THEN DiedDiv(v) ELSE Track(v, 1, {InitSt})
 
 Init == cur = 0 /\ bad = {} /\ div = {}
 Next == \E j \in 1..16 :
